@@ -96,18 +96,20 @@ def read_stmt(name: str, typ: str, tag: str) -> str:
 def scenario_files(sc: dict) -> T.Dict[str, str]:
     langs = ''.join(', ' + mstr(l) for l in sc.get('langs', []))
 
-    def defopts(lst: T.List[str]) -> str:
-        return '[' + ', '.join(mstr(x) for x in lst) + ']'
+    def defopts(key: str) -> str:
+        if sc.get('defaults_form') == 'dict':      # project.yaml: "(since 1.2.0): A dictionary may now be passed"
+            return '{' + ', '.join(f'{mstr(k)}: {lit(v)}' for k, v in sc.get(key + '_typed', [])) + '}'
+        return '[' + ', '.join(mstr(x) for x in sc.get(key, [])) + ']'
 
     def reads(obs: T.List[T.List[str]], tag: str = TAG) -> str:
         return ''.join(read_stmt(n, t, tag) for n, t in obs)
 
-    top = f"project('top'{langs}, default_options: {defopts(sc.get('top_defaults', []))})\n"
+    top = f"project('top'{langs}, default_options: {defopts('top_defaults')})\n"
     top += reads(sc.get('observe_top', []))
     files: T.Dict[str, str] = {}
     if sc.get('with_sp', True):
-        top += f"subproject('sp', default_options: {defopts(sc.get('call_defaults', []))})\n"
-        sp = f"project('sp'{langs}, default_options: {defopts(sc.get('sp_defaults', []))})\n"
+        top += f"subproject('sp', default_options: {defopts('call_defaults')})\n"
+        sp = f"project('sp'{langs}, default_options: {defopts('sp_defaults')})\n"
         sp += reads(sc.get('observe_sp', []))
         files['src/subprojects/sp/meson.build'] = sp
         if sc.get('sp_options'):
@@ -219,6 +221,10 @@ def add_source(sc: dict, name: str, typ: str, src: int, value: T.Any, project_op
     """make documented source number src+1 set option `name` to `value`"""
     sec = 'project options' if project_opt else 'built-in options'
     kv = f'{name}={as_cmd(typ, value)}'
+    if src in (0, 1, 4, 5):      # typed twin of the default_options entry, used by the dictionary form
+        lst = {0: 'top_defaults', 1: 'sp_defaults', 4: 'top_defaults', 5: 'call_defaults'}[src]
+        tv = value if typ in ('bool', 'int', 'array') else str(value)
+        sc.setdefault(lst + '_typed', []).append([('sp:' if src == 4 else '') + name, tv])
     if src == 0:
         sc['top_defaults'].append(kv)
     elif src == 1:
@@ -394,6 +400,8 @@ def describe(sc: dict) -> str:
             parts.append(f'{k}={ {s: kv for s, kv in sc[k].items() if s != "host_machine"} }')
     if sc.get('cross'):
         parts.append('cross build')
+    if sc.get('defaults_form') == 'dict':
+        parts.append('default_options written as dictionaries with typed values')
     return '; '.join(parts)
 
 
@@ -583,6 +591,8 @@ def _sp_builtin_shard(shard: T.Tuple[str, str, T.Any, T.List[T.Any], int, T.List
     ibucket: T.List[Failure] = []
     for mask in masks:
         sc = sp_cell(name, typ, vals, mask, cross=cross)
+        if mask % 3 == 1:
+            sc['defaults_form'] = 'dict'
         sc['observe_top'] = [[name, typ]]
         sc['observe_sp'] = [[name, typ]]
         et, wt = fold(TOP_SRC, mask, vals, default)
@@ -667,6 +677,8 @@ def sp_project_cell(ptype: str, variant: str, mask: int, rot: int, cross: bool) 
         if mask >> i & 1:
             add_source(sc, name, ptyp if i in TOP_SRC else typ, i, pvals[i] if i in TOP_SRC else vals[i], project_opt=True)
     sc['observe_sp'] = [[name, typ]]
+    if (mask + rot) % 3 == 1:
+        sc['defaults_form'] = 'dict'
     expect: dict = {'top': {}, 'sp': {}, 'winner': {}}
     if parent != 'none':
         sc['observe_top'] = [[name, ptyp]]
@@ -1229,8 +1241,10 @@ def direct_eval(sc: dict, tmp: str) -> T.Tuple[T.Optional[str], T.Dict[str, str]
         oi.process(path)
         store.update_project_options(oi.options, subp)       # type: ignore[arg-type]
 
-    def defopts(lst: T.List[str]) -> dict:
-        return {OptionKey.from_string(s.split('=', 1)[0]): s.split('=', 1)[1] for s in lst}
+    def defopts(key: str) -> dict:
+        if sc.get('defaults_form') == 'dict':
+            return {OptionKey.from_string(k): v for k, v in sc.get(key + '_typed', [])}
+        return {OptionKey.from_string(s.split('=', 1)[0]): s.split('=', 1)[1] for s in sc.get(key, [])}
 
     store = OptionStore(bool(sc.get('cross')))
     store.init_builtins()
@@ -1252,10 +1266,10 @@ def direct_eval(sc: dict, tmp: str) -> T.Tuple[T.Optional[str], T.Dict[str, str]
                     key = OptionKey.from_string(k)
                     mopts[key.evolve(subproject=subp) if subp else key] = v
         load(sc.get('top_options'), '')
-        store.initialize_from_top_level_project_call(defopts(sc.get('top_defaults', [])), ns.cmd_line_options, mopts)
+        store.initialize_from_top_level_project_call(defopts('top_defaults'), ns.cmd_line_options, mopts)
         top = {n: canon_py(store.get_value_for(OptionKey.from_string(n).evolve(subproject=''))) for n, _ in sc.get('observe_top', [])}
         load(sc.get('sp_options'), 'sp')
-        store.initialize_from_subproject_call('sp', defopts(sc.get('call_defaults', [])), defopts(sc.get('sp_defaults', [])),
+        store.initialize_from_subproject_call('sp', defopts('call_defaults'), defopts('sp_defaults'),
                                               ns.cmd_line_options, mopts)
         sp = {n: canon_py(store.get_value_for(OptionKey.from_string(n).evolve(subproject='sp'))) for n, _ in sc.get('observe_sp', [])}
         after = {n: canon_py(store.get_value_for(OptionKey.from_string(n).evolve(subproject=''))) for n, _ in sc.get('observe_top', [])}
@@ -1313,6 +1327,8 @@ def _direct_shard(shard: T.Tuple[str, T.Any], ev: Evidence, fails: T.List[Failur
             srcvals['default'] = canon(typ, default)
             for mask in range(256):
                 sc = sp_cell(name, typ, vals, mask)
+                if (mask + rot) % 2:
+                    sc['defaults_form'] = 'dict'
                 sc['observe_top'] = [[name, typ]]
                 sc['observe_sp'] = [[name, typ]]
                 et, wt = fold(TOP_SRC, mask, vals, default)
@@ -1523,7 +1539,7 @@ def run(ctx: Ctx) -> None:
         for cs in chunks(pcells, 32):
             shards.append((32, 'derived_prefix', (cs, cross)))
     # (d) validity
-    nper = ctx.n(80, 1500)
+    nper = ctx.n(80, 800)
     for s in shard_seeds(ctx, 16 if ctx.quick else 32):
         shards.append((nper * 2, 'validity', (s, nper)))
     # (e) per-machine in a cross build
